@@ -498,6 +498,9 @@ def plan(tier: str, seed: int, scale: float = 1.0) -> List[Dict[str, Any]]:
     specs += [{"kind": "random", "seed": seed * 1000 + i, "n": nrand} for i in range(4 if tier == "quick" else 16)]
     specs.append({"kind": "yaml", "seed": seed})
     nf = int((12000 if tier == "quick" else 250000) * scale)
+    from .fuzz_expr import ensure_atheris
+
+    ensure_atheris()
     specs += [{"kind": "fuzz", "seed": seed * 1000 + 500 + i, "n": nf} for i in range(2 if tier == "quick" else 12)]
     return specs
 
